@@ -30,6 +30,8 @@ def main():
         what = what.replace("|", "\\|")
         rc, nk, keys = res.get(name, (None, 0, []))
         note = meta.get("neutralised_on_repaired_tree")
+        other = meta.get("reported_by_other_check")
+        notc = meta.get("not_counted")
         if rc == 1:
             caught += 1
             rep = meta["property"] + " " + ", ".join("`%s`" % k.replace("|", "\\|") for k in keys[:2])
@@ -38,6 +40,12 @@ def main():
         elif note:
             neutral += 1
             rep = "not a violation on the repaired tree: " + " ".join(str(note).split())[:200].replace("|", "\\|")
+        elif notc:
+            neutral += 1
+            rep = "not counted: " + " ".join(str(notc).split())[:300].replace("|", "\\|")
+        elif other:
+            caught += 1
+            rep = " ".join(str(other).split())[:300].replace("|", "\\|")
         else:
             missed.append(name)
             rep = "NOT REPORTED (rc=%s)" % rc
